@@ -627,4 +627,297 @@ theorem itemWords_wrap {it : Item} (hd : ∀ w ∈ it.data, InI32 w) (hl : 4 * i
     map_wrapI32_of_in _ hd]
 
 
+
+
+/-! ### reading items and data out of a laid-out reader -/
+
+/-- `item_header(k)` / `item(k)` when the item area holds `hdr, size, data` at word `o` -/
+theorem item_of_layout {r : Reader} {k o : Nat} {hdr : Int} {data rest : List Int}
+    (ho : r.itemOffsets[k]? = some ((4 * o : Nat) : Int))
+    (hd : r.itemsRaw.drop o = hdr :: ((4 * data.length : Nat) : Int) :: (data ++ rest)) :
+    r.itemHeader k = .ok (hdr, ((4 * data.length : Nat) : Int))
+      ∧ r.item k = .ok { typeId := (hdr % 4294967296).toNat / 65536,
+                         id := (hdr % 4294967296).toNat % 65536,
+                         off := o + 2, len := data.length, data := data } := by
+  have hlen : o + 2 + data.length ≤ r.itemsRaw.length := by
+    have := congrArg List.length hd
+    simp only [List.length_drop, List.length_cons, List.length_append] at this
+    omega
+  have hw : ((4 * o : Nat) : Int).toNat / 4 = o := by omega
+  have hw4 : ((4 * o : Nat) : Int).toNat % 4 = 0 := by omega
+  have hs : ((4 * data.length : Nat) : Int).toNat / 4 = data.length := by omega
+  have hs4 : ((4 * data.length : Nat) : Int).toNat % 4 = 0 := by omega
+  have hhdr : r.itemHeader k = .ok (hdr, ((4 * data.length : Nat) : Int)) := by
+    unfold Reader.itemHeader
+    rw [ho]
+    simp only
+    rw [if_neg (by omega), if_neg (by omega), hw, if_neg (by omega), hd]
+  refine ⟨hhdr, ?_⟩
+  unfold Reader.item
+  rw [hhdr]
+  simp only
+  rw [ho]
+  simp only
+  rw [if_neg (by omega), if_neg (by omega), hw, if_neg (by omega), if_neg (by omega),
+    if_neg (by omega), if_neg (by omega), hs, if_neg (by omega)]
+  have hdd : r.itemsRaw.drop (o + 2) = data ++ rest := by
+    have := congrArg (List.drop 2) hd
+    simpa [List.drop_drop, Nat.add_comm] using this
+  rw [hdd]
+  congr 2
+  exact List.take_left' rfl
+
+/-- `read_data(i)` when the offsets are the running sums of the stored blocks and the data
+section is their concatenation -/
+theorem readData_of_layout {r : Reader} (stored : List (List UInt8))
+    (inflate : Nat → List UInt8 → Option (List UInt8))
+    (hoffs : r.dataOffsets = (offsetsFrom 0 (stored.map List.length)).map (fun (n : Nat) => (n : Int)))
+    (hreg : r.dataRegion = stored.flatten)
+    (hsd : r.sizeData = ((sumNat (stored.map List.length) : Nat) : Int))
+    (hmax : r.sizeData ≤ 2147483647)
+    {i : Nat} (hi : i < stored.length) :
+    r.readData inflate i =
+      match r.uncompSizes with
+      | some uds =>
+        match uds[i]? with
+        | none => .panic "read_data: uncomp_data_sizes[index]"
+        | some u =>
+          match inflate (asUsize u) stored[i] with
+          | none => .err .compressionError
+          | some out =>
+            if out.length > asUsize u then .panic "zlib wrote past the destination buffer"
+            else if out.length = asUsize u then .ok out
+            else .err .compressionWrongSize
+      | none => .ok stored[i] := by
+  have hlen : r.dataOffsets.length = stored.length := by
+    rw [hoffs]; simp [offsetsFrom_length]
+  have hget : ∀ j, j < stored.length →
+      r.dataOffsets[j]? = some ((sumNat ((stored.map List.length).take j) : Nat) : Int) := by
+    intro j hj
+    rw [hoffs, List.getElem?_map, offsetsFrom_getElem? _ _ _ (by simpa using hj)]
+    simp
+  have hsucc := sumNat_take_succ (stored.map List.length) i (by simpa using hi)
+  simp only [List.getElem_map] at hsucc
+  have hle := sumNat_take_le (stored.map List.length) (i + 1)
+  have hsize : r.dataSizeFile i = .ok stored[i].length := by
+    unfold Reader.dataSizeFile
+    rw [hget i hi]
+    simp only
+    rw [if_neg (by omega)]
+    by_cases hlast : i < r.dataOffsets.length - 1
+    · rw [if_pos hlast, hget (i + 1) (by omega)]
+      simp only
+      rw [asUsize_nonneg (by omega), asUsize_nonneg (by omega), if_pos (by omega)]
+      congr 1; omega
+    · rw [if_neg hlast]
+      simp only
+      have hall : sumNat ((stored.map List.length).take (i + 1)) = sumNat (stored.map List.length) := by
+        have : i + 1 = (stored.map List.length).length := by simp; omega
+        rw [this, List.take_length]
+      rw [hsd, asUsize_nonneg (by omega), asUsize_nonneg (by omega), if_pos (by omega)]
+      congr 1; omega
+  have hraw : (r.dataRegion.drop (sumNat ((stored.map List.length).take i))).take stored[i].length
+      = stored[i] := by
+    rw [hreg, ← List.map_take, flatten_drop_sum stored i hi]
+    exact List.take_left' rfl
+  unfold Reader.readData
+  rw [hsize]
+  simp only
+  rw [hget i hi]
+  simp only
+  have hmod : (((sumNat ((stored.map List.length).take i) : Nat) : Int) % 4294967296).toNat
+      = sumNat ((stored.map List.length).take i) := by
+    rw [hsd] at hmax; omega
+  rw [hmod, hraw]
+  simp only [ne_eq, not_true_eq_false, if_false]
+  rfl
+
+
+/-! ### the reader the written file parses to -/
+
+def storedOf (ver : Nat) (deflate : List UInt8 → List UInt8) (datas : List (List UInt8)) :
+    List (List UInt8) := if ver = 3 then datas else datas.map deflate
+
+def itemByteSize (it : Item) : Nat := 8 + 4 * it.data.length
+
+/-- the tables `Reader::new` obtains from `writeDf ver deflate items datas` -/
+def writtenReader (ver : Nat) (deflate : List UInt8 → List UInt8) (items : List Item)
+    (datas : List (List UInt8)) : Reader :=
+  { version := if ver = 3 then .v3 else .v4
+    numItemTypes := ((groupTypes items 0).length : Nat)
+    numItems := (items.length : Nat)
+    numData := (datas.length : Nat)
+    sizeItems := (sumNat (items.map itemByteSize) : Nat)
+    sizeData := (sumNat ((storedOf ver deflate datas).map List.length) : Nat)
+    itemTypes := groupTypes items 0
+    itemOffsets := (offsetsFrom 0 (items.map itemByteSize)).map (fun (n : Nat) => (n : Int))
+    dataOffsets := (offsetsFrom 0 ((storedOf ver deflate datas).map List.length)).map (fun (n : Nat) => (n : Int))
+    uncompSizes := if ver = 3 then none else some (datas.map (fun d => ((d.length : Nat) : Int)))
+    itemsRaw := (items.map itemWordsR).flatten
+    dataRegion := (storedOf ver deflate datas).flatten }
+
+theorem sumNat_take_map_mul4 {α : Type} (f g : α → Nat) (h : ∀ x, f x = 4 * g x) :
+    ∀ (l : List α) (k : Nat), sumNat ((l.map f).take k) = 4 * sumNat ((l.map g).take k)
+  | [], k => by simp [sumNat]
+  | x :: l, 0 => by simp [sumNat]
+  | x :: l, k + 1 => by
+    simp only [List.map_cons, List.take_succ_cons, sumNat, h x, sumNat_take_map_mul4 f g h l k]; omega
+
+/-- the header word of an item as read back -/
+def itemHdrR (it : Item) : Int := wrapI32 ((it.typeId * 65536 + it.id : Nat) : Int)
+
+theorem itemHdrR_toNat {it : Item} (h1 : it.typeId < 65536) (h2 : it.id < 65536) :
+    (itemHdrR it % 4294967296).toNat = it.typeId * 65536 + it.id := by
+  unfold itemHdrR wrapI32
+  split <;> omega
+
+/-- item `k` of the written reader -/
+theorem writtenReader_item (ver : Nat) (deflate : List UInt8 → List UInt8) (items : List Item)
+    (datas : List (List UInt8)) {k : Nat} (hk : k < items.length) :
+    let r := writtenReader ver deflate items datas
+    r.itemOffsets[k]? = some ((sumNat ((items.map itemByteSize).take k) : Nat) : Int)
+      ∧ r.itemHeader k = .ok (itemHdrR items[k], ((4 * items[k].data.length : Nat) : Int))
+      ∧ r.item k = .ok { typeId := (itemHdrR items[k] % 4294967296).toNat / 65536,
+                         id := (itemHdrR items[k] % 4294967296).toNat % 65536,
+                         off := sumNat (((items.map itemWordsR).take k).map List.length) + 2,
+                         len := items[k].data.length, data := items[k].data } := by
+  intro r
+  have hoff : r.itemOffsets[k]? = some ((sumNat ((items.map itemByteSize).take k) : Nat) : Int) := by
+    show ((offsetsFrom 0 (items.map itemByteSize)).map (fun (n : Nat) => (n : Int)))[k]? = _
+    rw [List.getElem?_map, offsetsFrom_getElem? _ _ _ (by simpa using hk)]
+    simp
+  have hmul : sumNat ((items.map itemByteSize).take k)
+      = 4 * sumNat (((items.map itemWordsR).take k).map List.length) := by
+    have e1 : ((items.map itemWordsR).take k).map List.length
+        = (items.map (List.length ∘ itemWordsR)).take k := by
+      rw [← List.map_take, List.map_map, List.map_take]
+    rw [e1]
+    exact sumNat_take_map_mul4 itemByteSize (List.length ∘ itemWordsR)
+      (fun it => by simp [itemByteSize, itemWordsR]; omega) items k
+  have hdrop : r.itemsRaw.drop (sumNat (((items.map itemWordsR).take k).map List.length))
+      = itemHdrR items[k] :: ((4 * items[k].data.length : Nat) : Int)
+          :: (items[k].data ++ ((items.map itemWordsR).drop (k + 1)).flatten) := by
+    show ((items.map itemWordsR).flatten).drop _ = _
+    rw [flatten_drop_sum _ k (by simpa using hk)]
+    simp [itemWordsR, itemHdrR]
+  rw [hmul] at hoff
+  obtain ⟨h1, h2⟩ := item_of_layout hoff hdrop
+  rw [← hmul] at hoff
+  exact ⟨hoff, h1, h2⟩
+
+
+theorem headerTypeId_itemHdrR {it : Item} (h1 : it.typeId < 65536) (h2 : it.id < 65536) :
+    headerTypeId (itemHdrR it) = (it.typeId : Int) := by
+  have := itemHdrR_toNat h1 h2
+  unfold headerTypeId
+  have h0 : 0 ≤ itemHdrR it % 4294967296 := by omega
+  omega
+
+/-- `check` accepts the tables of the written reader -/
+theorem writtenReader_check (ver : Nat) (deflate : List UInt8 → List UInt8) (items : List Item)
+    (datas : List (List UInt8))
+    (h16 : ∀ it ∈ items, it.typeId < 65536 ∧ it.id < 65536)
+    (hsort : items.Pairwise (fun a b => a.typeId ≤ b.typeId))
+    (hN : items.length ≤ 2147483647) :
+    (writtenReader ver deflate items datas).check = .ok () := by
+  let hd : Nat → Int := fun k => itemHdrR (items.getD k default)
+  let sz : Nat → Int := fun k => ((4 * (items.getD k default).data.length : Nat) : Int)
+  have hget : ∀ k (hk : k < items.length), items.getD k default = items[k] := by
+    intro k hk; simp [List.getD, List.getElem?_eq_getElem hk]
+  have hitem : ∀ k, k < items.length →
+      (writtenReader ver deflate items datas).itemHeader k = .ok (hd k, sz k) := by
+    intro k hk
+    have := (writtenReader_item ver deflate items datas hk).2.1
+    simp only [hd, sz, hget k hk]; exact this
+  unfold Reader.check
+  -- first block
+  have b1 : checkTypes (writtenReader ver deflate items datas).numItems
+      (writtenReader ver deflate items datas).itemTypes 0 none [] = .ok () := by
+    have := checkTypes_groupTypes items.length hN items 0 none [] hsort (fun it h => (h16 it h).1)
+      (by simp) (fun p hp => by cases hp) (fun s hs => by cases hs)
+    simpa [writtenReader] using this
+  rw [b1]
+  simp only
+  -- second block
+  have b2 : checkItems (writtenReader ver deflate items datas)
+      (asUsize (writtenReader ver deflate items datas).numItems) 0 0 = .ok () := by
+    have hnum : asUsize (writtenReader ver deflate items datas).numItems = items.length := by
+      show asUsize ((items.length : Nat) : Int) = items.length
+      rw [asUsize_nonneg (by omega)]; omega
+    rw [hnum]
+    have := checkItems_ok_of (writtenReader ver deflate items datas) items.length
+      (fun k => sumNat ((items.map itemByteSize).take k)) hd sz
+      (by simp [writtenReader])
+      (fun k hk => (writtenReader_item ver deflate items datas hk).1)
+      hitem
+      (fun k hk => by simp only [sz]; omega)
+      (fun k hk => by
+        have := sumNat_take_succ (items.map itemByteSize) k (by simpa using hk)
+        simp only [List.getElem_map, itemByteSize] at this
+        simp only [sz, hget k hk]
+        rw [this]; omega)
+      (fun k hk => sumNat_take_mono _ hk)
+      (by
+        have : items.length = (items.map itemByteSize).length := by simp
+        rw [this, List.take_length]; simp [writtenReader])
+      items.length 0 (by omega)
+    simpa [sumNat] using this
+  rw [b2]
+  simp only
+  -- third block
+  have hslen : (storedOf ver deflate datas).length = datas.length := by
+    unfold storedOf; split <;> simp
+  have b3 : checkData (writtenReader ver deflate items datas)
+      (asUsize (writtenReader ver deflate items datas).numData) 0 0 = .ok () := by
+    have hnum : asUsize (writtenReader ver deflate items datas).numData = datas.length := by
+      show asUsize ((datas.length : Nat) : Int) = datas.length
+      rw [asUsize_nonneg (by omega)]; omega
+    rw [hnum]
+    exact checkData_ok_of (writtenReader ver deflate items datas) datas.length
+      (fun k => sumNat (((storedOf ver deflate datas).map List.length).take k))
+      (fun k hk => by
+        show ((offsetsFrom 0 ((storedOf ver deflate datas).map List.length)).map
+          (fun (n : Nat) => (n : Int)))[k]? = _
+        rw [List.getElem?_map, offsetsFrom_getElem? _ _ _ (by simpa [hslen] using hk)]
+        simp)
+      (fun k hk => by
+        unfold udsCheck
+        show (match (if ver = 3 then none else some (datas.map (fun d => ((d.length : Nat) : Int)))) with
+          | some uds => _ | none => _) = none
+        split
+        · rename_i uds hu
+          split at hu
+          · cases hu
+          · cases hu
+            rw [List.getElem?_map, List.getElem?_eq_getElem hk]
+            simp only [Option.map_some]
+            rw [if_neg (by omega)]
+        · rfl)
+      (fun k _ => sumNat_take_mono _ (by omega))
+      (fun k _ => by
+        show ((sumNat (((storedOf ver deflate datas).map List.length).take k) : Nat) : Int)
+          ≤ ((sumNat ((storedOf ver deflate datas).map List.length) : Nat) : Int)
+        have := sumNat_take_le ((storedOf ver deflate datas).map List.length) k
+        omega)
+      datas.length 0 0 (by omega) (fun _ => by simp [sumNat])
+  rw [b3]
+  simp only
+  -- fourth block
+  refine checkTypeIds_ok_of (writtenReader ver deflate items datas) hd sz _ ?_
+  intro t ht
+  obtain ⟨a, n, h1, h2, h3, h4⟩ := groupTypes_covers items 0 t ht
+  refine ⟨by omega, by omega, by omega, ?_⟩
+  intro k hk1 hk2
+  have hkN : k < items.length := by omega
+  refine ⟨hitem k hkN, ?_⟩
+  obtain ⟨it, hit, hty⟩ := h4 (k - a) (by omega)
+  have hka : a + (k - a) = k := by omega
+  rw [hka, List.getElem?_eq_getElem hkN] at hit
+  cases hit
+  simp only [hd, hget k hkN]
+  have hb := h16 items[k] (List.getElem_mem hkN)
+  rw [headerTypeId_itemHdrR hb.1 hb.2, ← hty]
+  omega
+
+
 end Tw.Datafile
